@@ -1,4 +1,6 @@
 import ProductMD.Proofs.C05Images
+import ProductMD.Proofs.C05Rpms
+import ProductMD.Properties.C03
 import ProductMD.Properties.C02
 import ProductMD.Properties.C09
 import ProductMD.Model.ComposeInfoLegacy
@@ -155,6 +157,74 @@ example : (match upgradeCycle wOldDoc with
     | .error _ => false) = true := by decide +kernel
 
 end Images
+
+/-! ## rpms -/
+section Rpms
+open PM.Mf
+
+/-- the gates an rpms document meets, as comparisons of pairs of naturals (for every version) -/
+theorem C05_rpms_gates (v : Nat × Nat) :
+    gateHolds Gen.gate_rpms_Rpms_deserialize_0 v = verLe v (0, 3)
+    ∧ gateHolds Gen.gate_composeinfo_Compose_deserialize_0 v = verLt v (0, 3)
+    ∧ gateHolds Gen.gate_common_Header_deserialize_0 v = verLe (1, 1) v :=
+  ⟨rfl, rfl, rfl⟩
+
+/-- the legacy-aware reader extends the C03 reader: same answer wherever that one answers -/
+theorem C05_rpms_extends_C03 (doc : PyVal) (m : Manifest) (h : Mf.deserialize .rpms doc = .ok m) :
+    deserializeL .rpms doc = .ok m := Mf.deserializeL_of_deserialize doc m h
+
+/-- **loaded is normal** — whatever version the document had (0.3 manifests are replayed through `Rpms.add`, later ones are
+stored verbatim): the object carries the current header version, its compose section validates, and the mapping is
+JSON-representable (string keys bound once, no foreign values) whenever the document was — for a 0.3 manifest
+unconditionally, because every entry went through `Rpms.add` from the empty mapping. -/
+theorem C05_rpms_loaded_is_normal (doc : PyVal) (m : Manifest) (h : deserializeL .rpms doc = .ok m) :
+    m.version = .str Mf.currentVersion ∧ composeValidate m.compose = .ok ()
+    ∧ (jsonRep doc = true → jsonRep m.payload = true) := deserializeL_rpms_good doc m h
+
+/--
+**idempotent.**  A manifest loaded from a document of any version (with a compose section of the documented field types,
+`hc`) is written as a current-version document; the *current* reader (`Mf.deserialize`, no legacy branch: conversion
+happens exactly once) reads back the same mapping (key-sorted, Python-equal), the compose section up to the documented
+normalisation, the current header version; the second text equals the first, byte for byte.
+-/
+theorem C05_rpms_idempotent (doc : PyVal) (m : Manifest) (c : ComposeT) (h : deserializeL .rpms doc = .ok m)
+    (hd : jsonRep doc = true) (hc : m.compose = c.toObj) :
+    ∃ rt, roundtrip .rpms m = .ok rt
+      ∧ rt.reloaded.payload = PyVal.canon m.payload ∧ PyVal.pyEq rt.reloaded.payload m.payload = true
+      ∧ rt.reloaded.compose = c.norm.toObj ∧ rt.reloaded.version = .str Mf.currentVersion ∧ rt.text2 = rt.text1 := by
+  obtain ⟨_, hv, hp⟩ := deserializeL_rpms_good doc m h
+  obtain ⟨version, compose, payload⟩ := m
+  simp only at hc hv hp ⊢
+  subst hc
+  exact C03_roundtrip_payload .rpms version c payload (hp hd) hv
+
+/-- a 0.2 manifest: compose without date/respin, `manifest` section, a `src` table, type `package`, upper-case key -/
+def wRpms02 : PyVal :=
+  let e (p : String) (k : PyVal) (t : Option String) : PyVal :=
+    .dict ([(lit "path", .str (lit p)), (lit "sigkey", k)] ++ match t with | some t => [(lit "type", .str (lit t))] | none => [])
+  .dict [(lit "header", .dict [(lit "version", .str (lit "0.2"))]),
+    (lit "payload", .dict [(lit "compose", .dict [(lit "id", .str (lit "F-22-20150522.t.1")), (lit "type", .str (lit "?"))]),
+      (lit "manifest", .dict [(lit "Server", .dict [
+        (lit "src", .dict [(lit "bash-0:4.3-1.src", e "S/source/bash-4.3-1.src.rpm" (.str (lit "AB12")) none)]),
+        (lit "x86_64", .dict [(lit "bash-0:4.3-1.src", .dict [
+          (lit "bash-0:4.3-1.x86_64.rpm", e "S/x86_64/bash-4.3-1.x86_64.rpm" .none (some "package")),
+          (lit "bash-debuginfo-0:4.3-1.x86_64", e "S/x86_64/bash-debuginfo-4.3-1.x86_64.rpm" (.str (lit "cd")) (some "debug"))])])])])])]
+
+/-- **faithful, on a witness** (the general re-filing statement is C10's): type `package` becomes category `binary`, the
+source RPM of the `src` table is filed next to its binaries with category `source` and its own path and lower-cased key,
+the `src` arch is gone, `.rpm` is dropped from the key; date/type/respin come from the id -/
+theorem C05_rpms_faithful_witness :
+    (match deserializeL .rpms wRpms02 with
+     | .ok m =>
+       PyVal.beq (PyVal.canon m.payload) (PyVal.canon (.dict [(lit "Server", .dict [(lit "x86_64", .dict [(lit "bash-0:4.3-1.src", .dict [
+          (lit "bash-0:4.3-1.x86_64", rpmRecord none (lit "S/x86_64/bash-4.3-1.x86_64.rpm") (lit "binary")),
+          (lit "bash-0:4.3-1.src", rpmRecord (some (lit "ab12")) (lit "S/source/bash-4.3-1.src.rpm") (lit "source")),
+          (lit "bash-debuginfo-0:4.3-1.x86_64", rpmRecord (some (lit "cd")) (lit "S/x86_64/bash-debuginfo-4.3-1.x86_64.rpm") (lit "debug"))])])])]))
+       && m.compose == [(lit "id", .str (lit "F-22-20150522.t.1")), (lit "type", .str (lit "test")), (lit "date", .str (lit "20150522")),
+                        (lit "respin", .int 1), (lit "label", .none), (lit "final", .bool false)]
+     | .error _ => false) = true := by decide +kernel
+
+end Rpms
 
 /-! ## composeinfo (gates; more below) -/
 
